@@ -156,7 +156,7 @@ def run(ctx, res):
         if i == 3:
             res.sample({'source': repr(src[:160])})
     # the words the picotool source itself mentions, as identifiers in every syntactic position (they are identifiers like any other)
-    for src, items in gen_lua.word_programs(rng, per_word=2 if ctx.thorough() else 1):
+    for src, items in gen_lua.word_programs(rng, per_word=4 if ctx.thorough() else 2):
         check_program(res, src, items, batch, 'word')
         res.count('word-program')
     anchors = [b'if (a) if (b) c=1 d=2\ne=3\nf=4\n', b'if (a) b=1\nc=2\n', b'if (a) b=1 else c=2\nd=3', b'if (a) b=1', b'if (a) b=1 -- c\nd=1',
